@@ -83,6 +83,13 @@ def interval(body, op, depth=0):
                         return (int(m.group(1)), int(m.group(1)))
                     break
                 al = op_local(nxt) if isinstance(nxt, dict) else None
+        if (cs.fn or "").rsplit("::", 1)[-1] == "len" and not proj and cs.args and (cs.fn or "").startswith(("core::slice::<impl [T]>::", "alloc::vec::Vec::", "alloc::string::String::", "core::str::<impl str>::")):
+            # A10 (platform assumption, DESIGN section 3): the length of an in-memory byte/str buffer is below 2^57 — no target rustc
+            # supports offers more than 57 bits of virtual address space, and std caps an allocation at isize::MAX bytes
+            al = op_local(cs.args[0])
+            aty = body.local_ty(al) if al is not None else ""
+            if any(t_ in aty for t_ in ("[u8]", "Vec<u8>", "str", "String", "[u8;")):
+                return (0, 2 ** 57)
         return INT_RANGES.get(ty) if not proj else None
     rv = x["rv"] if x["s"] == "assign" else None
     if rv is None:
@@ -193,6 +200,43 @@ def _arith(body, rv, depth):
     return None
 
 
+SIZE_CALLS = ("len", "count", "capacity", "size", "bits", "encoded_len", "max_encoded_len", "num_bytes", "digest_size", "block_size", "size_of", "min", "max")
+
+
+def _size_expr(body, op, depth=0):
+    """the operand is built from constants and lengths/sizes of values that already exist (`a.len() * 3 + 1`): walks single
+    definitions; a `len()`-like call is a leaf (what it measures is irrelevant)"""
+    if depth > 16 or op is None:
+        return False
+    if op_const(op) is not None:
+        return True
+    p = op_place(op)
+    if p is None:
+        return False
+    d = single_def(body, p["l"])
+    if d is None:
+        return False
+    kind, bb, j, x = d
+    if kind == "call":
+        cs = CallSite(body, bb, x)
+        m = (cs.fn or cs.name or "").rsplit("::", 1)[-1]
+        if m in SIZE_CALLS and m not in ("min", "max"):
+            return True
+        if m in ("min", "max", "saturating_add", "saturating_mul", "saturating_sub", "wrapping_add", "next_power_of_two", "div_ceil", "from", "into", "unwrap_or") or m.startswith("checked_"):
+            return all(_size_expr(body, a, depth + 1) for a in cs.args)
+        return False
+    if x["s"] != "assign":
+        return False
+    rv = x["rv"]
+    if rv["k"] in ("use", "cast"):
+        return _size_expr(body, rv["op"], depth + 1)
+    if rv["k"] == "binop":
+        return _size_expr(body, rv["a"], depth + 1) and _size_expr(body, rv["b"], depth + 1)
+    if rv["k"] == "unop" and rv.get("op") == "PtrMetadata":
+        return True
+    return False
+
+
 def auto_discharge(body, src):
     """returns a reason string when the assert source is discharged automatically, else None"""
     if src.kind == "unwrap" and src.what == "core::option::Option::unwrap":
@@ -220,6 +264,8 @@ def auto_discharge(body, src):
         iv = interval(body, cs.args[i_])
         if iv is not None and iv[1] <= 2 ** 32:
             return "A9 requested size within %s..%s" % iv
+        if _size_expr(body, cs.args[i_]):
+            return "A9 requested size is built from lengths of existing values and constants"
         sl = origins(body, cs.args[i_])
         SIZES = ("len", "count", "capacity", "size_hint", "size", "bits", "encoded_len", "max_encoded_len", "num_bytes", "digest_size", "block_size")
         inputs = [l_ for l_ in sl.leaves if l_.startswith(("param:", "field:", "static:"))] if hasattr(sl, "leaves") else None
